@@ -75,11 +75,14 @@ func init() {
 		},
 		Assumptions: []string{
 			"exact positions are asserted only with the Ahem font (1em square glyphs, ascent 0.8em, descent 0.2em), left-to-right ASCII text, no floats, no hyphenation, no letter/word spacing",
-			"with DejaVu Sans (/usr/share/fonts/truetype/dejavu/DejaVuSans.ttf) only inequalities with 1px slack are asserted",
-			"feature combinations that trigger the defects D1-D15 / G1-G3 of notes/C11.md are not generated or are skipped by the reference model's guards (counted as blocks_skipped_known_defect_*)",
+			"with DejaVu Sans (/usr/share/fonts/truetype/dejavu/DejaVuSans.ttf) only inequalities with 2px slack are asserted",
+			"feature combinations that trigger the defects D1-D16 / G1-G3 of notes/C11.md are not generated or are skipped by the reference model's guards (counted as blocks_skipped_known_defect_*)",
 			"pre-wrap: plain text, single spaces, no space before a forced break; go-text engine: plain text in white-space normal/nowrap; overflow-wrap: plain text, no indent; word-break:break-all not compared",
 		},
 		Batch: 10,
+		// hang detection only; generous because kernel time is charged to the worker when the
+		// machine is short of memory (a case costs < 1.5 CPU-s)
+		CPUBudget: 900,
 	})
 }
 
